@@ -175,11 +175,17 @@ pub fn evaluate_image(e: &mut Exec, img: &Image, allowed: &[usize], writer_step:
     if writer_step {
         let d2 = SimDir::from_image(img, true);
         let cfg = e.case.cfg.clone();
-        let extra = DocSpec { uid: 1_000_000 + k, key: 0, body: vec![0], tag: 0, sortv: Some(1), js: 0 };
+        let extra = DocSpec { uid: 1_000_000 + k, key: 77, body: vec![0], tag: 0, sortv: Some(1), js: 0 };
         let fields = e.fields.clone();
+        // the new writer also deletes by the key of a recovered document: its commit then writes a
+        // `.del` file for a recovered segment (whose name may collide with a leftover of the crash)
+        let del_key: Option<u64> = e.model.commits[m].docs.first().map(|d| d.key);
         let res = catch(|| -> tantivy::Result<Index> {
             let index2 = Index::open(simdir::boxed(&d2))?;
             let mut w = exec::make_writer(&index2, &cfg, 1)?;
+            if let Some(kk) = del_key {
+                w.delete_term(tantivy::Term::from_field_u64(fields.key, kk));
+            }
             w.add_document(extra.to_tantivy(&fields))?;
             w.commit()?;
             w.garbage_collect_files().wait()?;
@@ -208,6 +214,9 @@ pub fn evaluate_image(e: &mut Exec, img: &Image, allowed: &[usize], writer_step:
         let dump = crate::dump::dump_index(&index2, &e.fields)
             .map_err(|x| ("recovered_read".to_string(), x.to_string()))?;
         let mut docs = e.model.commits[m].docs.clone();
+        if let Some(kk) = del_key {
+            docs.retain(|d| d.key != kk);
+        }
         docs.push(extra.clone());
         e.specs.insert(extra.uid, extra);
         compare(&dump, &docs, &e.fields).map_err(|x| ("recovered_plus_commit".to_string(), x))?;
